@@ -76,25 +76,29 @@ def check_mapping(mol, anchor, pattern, pairs):
     defects = []
     f = {}
     for m, p in pairs:
-        if p in f and f[p] != m:
-            defects.append("pattern_atom_mapped_twice")
-        f[p] = m
+        f.setdefault(p, set()).add(m)
+    if any(len(v) > 1 for v in f.values()):
+        # a tree-unrolled ring: the same pattern atom reached along two branches with different images
+        defects.append("pattern_atom_mapped_twice")
     if len(f) != pattern.GetNumAtoms():
         defects.append("pattern_atoms_unmapped")
         return defects
-    if anchor not in f.values():
+    images = [m for v in f.values() for m in v]
+    if anchor not in images:
         defects.append("anchor_not_in_match")
-    if len(set(f.values())) != len(f):
+    if len(set(images)) != len(images):
         defects.append("not_injective")
-    for p, m in f.items():
-        if mol.GetAtomWithIdx(m).GetSymbol() != pattern.GetAtomWithIdx(p).GetSymbol():
+    for p, ms in f.items():
+        if any(mol.GetAtomWithIdx(m).GetSymbol() != pattern.GetAtomWithIdx(p).GetSymbol() for m in ms):
             defects.append("element_mismatch")
     ring = pattern.GetRingInfo()
     for b in pattern.GetBonds():
         i, j = b.GetBeginAtomIdx(), b.GetEndAtomIdx()
-        t = madj[f[i]].get(f[j])
-        if t != b.GetBondType():
+        # with several images per pattern atom a pattern bond counts as present when some pair of
+        # images carries it (each tree edge was checked between one specific pair)
+        types = {madj[mi].get(mj) for mi in f[i] for mj in f[j]}
+        if b.GetBondType() not in types:
             inring = ring.NumBondRings(b.GetIdx()) > 0
-            defects.append(("ring_bond_" if inring else "chain_bond_") +
-                           ("missing" if t is None else "type_mismatch"))
+            missing = types <= {None}
+            defects.append(("ring_bond_" if inring else "chain_bond_") + ("missing" if missing else "type_mismatch"))
     return defects
